@@ -9,7 +9,7 @@ theorem generateParams_impl {dyn : Bool} {deps : FnDeps} {a : List Attr} {pt : P
     {itrail : Bool} {ins : List FnArg} {tr : Bool} (hne : deps ≠ .noDeps)
     (h : generateParams (if dyn then .dynamicImpl else .staticImpl) deps (.typed a pt ty :: rest) itrail = .ok (ins, tr)) :
     (dyn = false ∧ ins = implReceiverArg :: rest) ∨
-    (dyn = true ∧ ∃ r, ins = .recv [] r false none :: implReceiverArg :: rest) := by
+    (dyn = true ∧ ins = .recv [] (refOf ty) false none :: implReceiverArg :: rest) := by
   unfold generateParams rewriteFirst insertImplRecv at h
   cases dyn
   · left
@@ -23,9 +23,9 @@ theorem generateParams_impl {dyn : Bool} {deps : FnDeps} {a : List Attr} {pt : P
     cases deps with
     | noDeps => exact absurd rfl hne
     | generic q bs =>
-      cases ty <;> cases rest <;> simp [genFirstReceiver, selfReceiverArg] at h <;> exact ⟨_, h.1.symm⟩
+      cases ty <;> cases rest <;> simp [genFirstReceiver, selfReceiverArg] at h <;> simp [refOf, h.1]
     | concrete cty =>
-      cases ty <;> cases rest <;> simp [genFirstReceiver, selfReceiverArg] at h <;> exact ⟨_, h.1.symm⟩
+      cases ty <;> cases rest <;> simp [genFirstReceiver, selfReceiverArg] at h <;> simp [refOf, h.1]
 
 /-- the method generated for one function of an impl block -/
 structure ImplModeSpec (dyn : Bool) (sig : Sig) (tf : TraitFn) : Prop where
@@ -39,7 +39,7 @@ structure ImplModeSpec (dyn : Bool) (sig : Sig) (tf : TraitFn) : Prop where
   typed : typedArgs tf.sig.inputs =
     fixParams sig.ident (implReceiverArg :: (typedArgs (sig.inputs.drop 1)).map FnArg.stripAttrs)
   head : (dyn = false ∧ tf.sig.inputs.head? = (fixParams sig.ident (implReceiverArg :: (sig.inputs.drop 1).map FnArg.stripAttrs)).head?) ∨
-         (dyn = true ∧ ∃ r, tf.sig.inputs.head? = some (.recv [] r false none))
+         (dyn = true ∧ tf.sig.inputs.head? = expectedReceiver false sig)
 
 theorem implModeSpec {dyn : Bool} {opts : Opts} {sig : Sig} {tg tg' : TraitGenerics} {tf : TraitFn}
     (hn : opts.noDepsValue = false)
@@ -50,15 +50,16 @@ theorem implModeSpec {dyn : Bool} {opts : Opts} {sig : Sig} {tg tg' : TraitGener
   rw [hin] at hg
   simp only [List.map_cons, FnArg.stripAttrs] at hg
   have hdrop : (sig.inputs.drop 1).map FnArg.stripAttrs = rest.map FnArg.stripAttrs := by rw [hin]; simp
-  rcases generateParams_impl hne hg with ⟨rfl, rfl⟩ | ⟨rfl, r, rfl⟩
+  rcases generateParams_impl hne hg with ⟨rfl, rfl⟩ | ⟨rfl, rfl⟩
   · refine ⟨rfl, rfl, rfl, rfl, rfl, hne, ?_, Or.inl ⟨rfl, ?_⟩⟩
     · simp only [typedArgs_fixParams, implReceiverArg, typedArgs_cons_typed, hin, List.drop_succ_cons, List.drop_zero,
         typedArgs_map_strip]
     · simp [hin]
-  · refine ⟨rfl, rfl, rfl, rfl, rfl, hne, ?_, Or.inr ⟨rfl, r, ?_⟩⟩
+  · refine ⟨rfl, rfl, rfl, rfl, rfl, hne, ?_, Or.inr ⟨rfl, ?_⟩⟩
     · simp only [fixParams_cons_recv, typedArgs_cons_recv, typedArgs_fixParams, implReceiverArg, typedArgs_cons_typed,
         hin, List.drop_succ_cons, List.drop_zero, typedArgs_map_strip]
-    · simp [fixParams_cons_recv]
+    · simp only [fixParams_cons_recv, List.head?_cons, expectedReceiver, Bool.false_eq_true, if_false, hin]
+      cases ty <;> rfl
 
 /-! ### impl-block attributes never set `no_deps` -/
 
